@@ -130,14 +130,17 @@ class Universe:
         return m
 
     def remove(self, key: Hashable) -> None:
-        """Drop a qubit; if it is still entangled it is measured first (collapse on free)."""
+        """Drop a qubit.  A qubit in a product state with the rest is simply factored out (no collapse, no
+        draw); only a qubit that is still entangled is measured first (collapse on free)."""
         a = self._ax(key)
-        p0 = self.prob0(key)
-        if 1e-12 < p0 < 1 - 1e-12:
-            self.measure(key)
-            p0 = self.prob0(key)
-        m = 0 if p0 > 0.5 else 1
-        self.psi = np.take(self.psi, m, axis=a)
+        rho = self.reduced([key])
+        w, v = np.linalg.eigh(rho)
+        if w[-1] > 1 - 1e-10:
+            phi = v[:, -1]                       # the qubit's own pure state: contract it away
+            self.psi = np.tensordot(phi.conj(), self.psi, axes=([0], [a]))
+        else:
+            m = self.measure(key)
+            self.psi = np.take(self.psi, m, axis=a)
         nrm = np.linalg.norm(self.psi)
         if nrm > 0:
             self.psi = self.psi / nrm
